@@ -471,3 +471,36 @@ sm_instances! {
     c12_k2_send_multiple_nohint => send_multiple_case(2, None);
     c12_k2_send_multiple_nohint_empty => send_multiple_case(0, None);
 }
+
+/// C14.K6 — a NON-reloadable asset loaded inside a compound is not registered, and what it read is attributed to the
+/// compound (the only way the compound can follow those files)
+fn nested_non_reloadable_reads_go_to_outer() {
+    let c = gc_with_reloader(Mem::new(O::Good, O::Good, nd(), nd()));
+    let r = match &c.rel { Some(r) => r, None => unreachable!() };
+    // YS is not in the contract map's alphabet: run its load function under a record, as load_and_record does
+    let (res, deps) = records::record(r, || <YS as crate::Compound>::load(c._as_any_cache(), &"a".into()));
+    match res { Ok(y) => assert!(y.0 == c.src.data[0][0]), Err(e) => { std::mem::forget(e); assert!(false, "compound load failed") } }
+    assert!(has(&deps, &dep_file("a", "x")), "C14 reads made by the nested load of a NON-reloadable asset belong to the asset being loaded");
+    assert!(!has(&deps, &dep_asset("a", tid(2))), "C10/C14 a non-reloadable asset is never a dependency by itself");
+    assert!(count(&deps) == 1 && nreg() == 0, "C10 a non-reloadable asset never registers with the reloader");
+    std::mem::forget(deps);
+    std::mem::forget(c);
+}
+instances! {
+    c14_k6_nested_non_reloadable => nested_non_reloadable_reads_go_to_outer();
+}
+
+/// C09.K2 — a failing reload reports nothing to re-register (the graph keeps the asset's previous dependency set) and leaves the value
+fn failed_reload_keeps_deps() {
+    let c = gc_with_reloader(Mem::new(O::Good, O::Good, nd(), nd()));
+    c.map.put(kidx(0, 0), CacheEntry::new(A(7), "a".into(), || true), true);
+    c.src.o[0].set(any_err_o());
+    let deps = c._as_any_cache().reload_untyped("a".into(), Type::of::<A>());
+    assert!(deps.is_none(), "C05/C09 a failing reload leaves the asset's dependency set alone (nothing is reported to the graph)");
+    match c._get_cached::<A>("a") { Some(h) => assert!(h.read().0 == 7 && h.last_reload_id() == crate::ReloadId::NEVER, "C09 a failing reload leaves value and reload id untouched"), None => assert!(false) }
+    assert!(recording_is_none(), "C09 recording cell restored after a failed reload");
+    std::mem::forget(c);
+}
+instances! {
+    c09_k2_failed_reload_keeps_deps => failed_reload_keeps_deps();
+}
